@@ -378,10 +378,10 @@ func (s *Snapshot) govText() string {
 	} else {
 		pairs = []string{"?"}
 	}
-	return fmt.Sprintf(" gov[ms=%s,mv=%s,ut=%s,w=%s,mspw=%s,jd=%s,mea=%s,sfds=%s,sfdt=%s,memo=%s,daoo=%s,upg=%s] acl[%s]",
+	return fmt.Sprintf(" gov[ms=%s,mv=%s,ut=%s,w=%s,mspw=%s,jd=%s,mea=%s,sfds=%s,sfdt=%s,memo=%s,tsl=%s,daoo=%s,upg=%s] acl[%s]",
 		q("pos/StakeMinimum"), q("pos/MaxValidators"), q("pos/UnstakingTime"), q("pos/SignedBlocksWindow"), dec("pos/MinSignedPerWindow"),
 		q("pos/DowntimeJailDuration"), q("pos/MaxEvidenceAge"), dec("pos/SlashFractionDoubleSign"), dec("pos/SlashFractionDowntime"),
-		q("auth/MaxMemoCharacters"), q("gov/daoOwner"), upg, strings.Join(pairs, ","))
+		q("auth/MaxMemoCharacters"), q("auth/TxSigLimit"), q("gov/daoOwner"), upg, strings.Join(pairs, ","))
 }
 
 var _ = auth.StoreKey
